@@ -2,7 +2,7 @@
 import json
 from vt import core
 from vt.main import decide
-from translate import usercls_tr
+from translate import usercls_tr, repo_tr
 from props import usercls_common as uc
 
 
@@ -20,7 +20,7 @@ def corpus_cases(pid):
 def run(chk, pid="C14"):
     import time
     t0 = time.time()
-    chk.prove([usercls_tr.translate])
+    chk.prove([usercls_tr.translate] + ([repo_tr.translate] if pid == "C15" else []))
     t1 = time.time()
     n = 1200 if chk.thorough else 70
     cases = corpus_cases(pid)
